@@ -23,7 +23,7 @@ LEVEL_TEXT = (
 LEVEL_NOTE = ('Key labels are data-independent (fresh letter per press, relabelled in the canonical key); '
               'between operations the harness snapshots/restores KeyboardBuffer._buffer/_start instead of '
               'replaying the history again for every successor. POKEs of arbitrary values to 1050/1052 are '
-              'not in the statement and not explored.')
+              'not in the statement and not explored (except the tail poked onto the head).')
 TECHNIQUE = 'explicit-state BFS to a fixed point over key/read/clear histories on the real keyboard ring buffer vs. a FIFO reference model'
 RULE = ('all operation histories (BFS with exact canonical-state dedup) until no new state appears; a case class '
         'is (operation, number waiting before, outcome); non-trivial = every class')
